@@ -41,6 +41,7 @@ func runC03(p *load.Program, r *oblig.Report) {
 	c02ReaderAs(p, r, "C03.R10 records of the current generation are delivered, older ones dropped")
 	c03CoordinatorLookup(p, r)
 	c03ReadMessageKeeps(p, r)
+	c03SyncGroupMembers(p, r)
 }
 
 // c03CoordinatorLookup: the coordinator of a group can move at any time; a member that keeps talking to the old one
@@ -821,4 +822,39 @@ func c03ReadMessageKeeps(p *load.Program, r *oblig.Report) {
 	})
 	r.Check(n > 0 && len(bad) == 0, rule, "kafka.(*Reader).ReadMessage returns the fetched message on every path after FetchMessage succeeded", p.Pos(fn.Pos()),
 		"return m, err (the message also accompanies a commit error)", strings.Join(bad, "; "))
+}
+
+// c03SyncGroupMembers: the leader sends one assignment entry per member, tagged with that member's id (the key of the
+// assignments map), not with its own id: otherwise the coordinator hands every share to the leader and the other
+// members' partitions are never read.
+func c03SyncGroupMembers(p *load.Program, r *oblig.Report) {
+	const rule = "C03.R13 every member receives its own assignment"
+	fn := p.Func("", "(*ConsumerGroup).makeSyncGroupRequestV0")
+	if fn == nil {
+		r.Lost(rule, "kafka.(*ConsumerGroup).makeSyncGroupRequestV0")
+		return
+	}
+	n := 0
+	var bad []string
+	an.EachInstr(fn, func(ins ssa.Instruction) {
+		st, ok := fieldStoreIs(ins, "syncGroupRequestGroupAssignmentV0", "MemberID")
+		if !ok {
+			return
+		}
+		n++
+		fromMap := false
+		for _, o := range an.Origins(st.Val, an.FlowOpts{}) {
+			if o.Kind == "param" && o.Name != an.ParamName(fn.Params[len(fn.Params)-1]) {
+				bad = append(bad, "entry tagged with "+o.String()+" at "+p.Pos(st.Pos()))
+			}
+			if o.Kind == "param" && o.Name == an.ParamName(fn.Params[len(fn.Params)-1]) {
+				fromMap = true
+			}
+		}
+		if !fromMap && len(bad) == 0 {
+			bad = append(bad, "entry tagged with "+clean(an.Shape(st.Val))+" at "+p.Pos(st.Pos()))
+		}
+	})
+	r.Check(n > 0 && len(bad) == 0, rule, "kafka.(*ConsumerGroup).makeSyncGroupRequestV0 tags each assignment with the member id it is filed under", p.Pos(fn.Pos()),
+		"for memberID, topics := range memberAssignments { …MemberID: memberID… }", strings.Join(bad, "; "))
 }
